@@ -250,6 +250,7 @@ class Interp:
     def as_int(s, v, w):
         """force a bit-vector view (python int or z3 BV) of an int-typed slot"""
         if isinstance(v, int): return v
+        if isinstance(v, Sl): return v.bits(w // 8)
         if isinstance(v, FV):
             if v.r is not None: raise EncodingError('integer op on real-domain float bits')
             return v.bits()
@@ -493,7 +494,12 @@ class Interp:
 
     def retag(s, v, te):
         if isinstance(v, Undef): return v
-        if isinstance(te, FpTy): return s.as_float(v, te.w)
+        if isinstance(te, FpTy):
+            if isinstance(v, Pack):
+                # a float lane assembled from several cells (e.g. two floats viewed as one double by a shuffle): keep lazy
+                try: return s.as_float(v, te.w)
+                except EncodingError: return v
+            return s.as_float(v, te.w)
         if isinstance(te, IntTy):
             if isinstance(v, (FV, Pack, int)) or z3.is_bv(v): return v
         if isinstance(te, PtrTy): return v
